@@ -95,11 +95,52 @@ static void flaky_clock(struct res *r) {
     res_sample(r, "clock returning e.g. (valid, valid, error value) on successive reads inside one create");
 }
 
+/* the optional time entry left NULL: the library reads the C library's clock.  The process environment is part of the
+ * configuration: every zone setting below x clock readings at and around every month boundary (a clock computed through
+ * local-time functions is off by the zone offset, which shows within that offset of a boundary) */
+static const char *ZONES[] = { NULL, "UTC0", "JST-9", "EST5EDT", "NST03:30", "<+14>-14", "<-12>12" };
+static void default_clock(struct res *r) {
+    polyseed_dependency d; deps_variant(0, 1, 0, 0, &d); polyseed_inject(&d);
+    for (unsigned z = 0; z < sizeof ZONES / sizeof *ZONES; z++) {
+        if (ZONES[z]) setenv("TZ", ZONES[z], 1); else unsetenv("TZ");
+        tzset();
+        for (long k = 0; k <= 1030; k++) {
+            uint64_t b = R_EPOCH + (uint64_t)k * R_STEP;
+            const uint64_t v[] = { b - 1, b, b + 1, b + R_STEP / 2, b - 14 * 3600, b - 14 * 3600 - 1, b + 14 * 3600 - 1, b + 14 * 3600, b - 9 * 3600, b + 5 * 3600 - 1, b - 12600, b + 12600 - 1 };
+            for (unsigned i = 0; i < sizeof v / sizeof *v; i++) {
+                uint64_t t = v[i]; E_libc_time_value = (time_t)t; env_clear_log();
+                polyseed_data *s = NULL; int st = polyseed_create(0, &s); r->cases++; r->calls++;
+                char rep[100]; snprintf(rep, sizeof rep, "libc %s %llu", ZONES[z] ? ZONES[z] : "-", (unsigned long long)t);
+                if (st != POLYSEED_OK) { res_viol(r, "c11:create", rep, "create failed %d", st); continue; }
+                uint64_t B = polyseed_get_birthday(s); polyseed_free(s); r->calls += 2;
+                uint64_t want = ref_birthday_time(ref_birthday_index(t));
+                r->digest ^= mix64(t + z, B);
+                if (B != want) { char key[64]; snprintf(key, sizeof key, "c11:default-clock:%s", B > t ? "later-than-creation" : "wrong-month"); res_viol(r, key, rep, "time entry NULL, TZ=%s, C library clock %llu -> birthday %llu, expected %llu%s", ZONES[z] ? ZONES[z] : "(unset)", (unsigned long long)t, (unsigned long long)B, (unsigned long long)want, B > t ? " (later than the creation time)" : ""); }
+                else if (E.n_libc_time < 1 || E.n_time) res_viol(r, "c11:default-clock:source", rep, "time entry NULL but the clock was read %lu times from libc and %lu times from the previously injected function", E.n_libc_time, E.n_time);
+                else { r->validated++; r->cls[t < R_EPOCH ? 1 : t < RANGE_END ? 0 : 2]++; }
+            }
+        }
+    }
+    unsetenv("TZ"); tzset(); E_libc_time_value = (time_t)1700000000;
+    inject(0);
+    res_sample(r, "TZ=JST-9, C library clock one second before a month boundary");
+}
+
 int main(int argc, char **argv) {
     int a = common_args(argc, argv);
     ref_init(VERIF_ROOT); sec_mark_initial(); env_init(); inject(0);
     polyseed_enable_features(7);
     struct res *r = calloc(1, sizeof *r);
+    if (a + 2 < argc && !strcmp(argv[a], "libc")) {      /* libc <zone|-> <clock> */
+        polyseed_dependency d; deps_variant(0, 1, 0, 0, &d); polyseed_inject(&d);
+        if (strcmp(argv[a + 1], "-")) setenv("TZ", argv[a + 1], 1); else unsetenv("TZ");
+        tzset(); uint64_t t = strtoull(argv[a + 2], NULL, 10); E_libc_time_value = (time_t)t;
+        polyseed_data *s = NULL; if (polyseed_create(0, &s) != POLYSEED_OK) { printf("REPRODUCED create failed\n"); return 1; }
+        uint64_t B = polyseed_get_birthday(s), want = ref_birthday_time(ref_birthday_index(t));
+        printf("TZ=%s libc clock %llu -> birthday %llu (reference %llu)\n", argv[a + 1], (unsigned long long)t, (unsigned long long)B, (unsigned long long)want);
+        if (B != want) { printf("REPRODUCED c11:default-clock\n"); return 1; }
+        return 0;
+    }
     if (a < argc && !strcmp(argv[a], "case")) {
         uint64_t t = strtoull(argv[a + 1], NULL, 10);
         check_t(t, r);
@@ -128,6 +169,7 @@ int main(int argc, char **argv) {
     memset(r, 0, sizeof *r); par_run(1024, work_tr, NULL, r);
     out_part("all 1024 month indices through store/load, encode/decode x10, crypt", r, CLS, "");
     memset(r, 0, sizeof *r); flaky_clock(r); out_part("clock whose readings change inside one call", r, CLS, "birthday must correspond to a value actually read");
+    memset(r, 0, sizeof *r); default_clock(r); out_part("default clock (time entry NULL) under 7 time-zone settings x 12 readings around each of 1031 month boundaries", r, CLS, "the zone setting of the process is an environment answer; all listed ones enumerated");
     if (every) {
         memset(r, 0, sizeof *r); par_run((long)(1026 * R_STEP), work_every, NULL, r);
         out_part("every second from EPOCH-STEP to EPOCH+1025*STEP", r, CLS, "complete enumeration of the documented range plus one month on each side");
